@@ -56,9 +56,10 @@ def main():
         try:
             rc, out = sh("git apply %s" % patch, cwd=wt2)
             # a private copy of the Coq development too: C16 regenerates coq/gen/TypesGen.v from the tree under test
-            seedcoq = os.path.join(VERIF, ".cache_seed", "coq")
+            scache = os.path.join(VERIF, os.environ.get("SEED_CACHE", ".cache_seed"))
+            seedcoq = os.path.join(scache, "coq")
             sh("mkdir -p %s && rsync -a --delete --exclude gen/ %s/ %s/" % (seedcoq, os.path.join(VERIF, "coq"), seedcoq))
-            env = "GDSL_REPO=%s VERIF_CACHE=%s VERIF_COQ=%s" % (wt2, os.path.join(VERIF, ".cache_seed"), seedcoq)
+            env = "GDSL_REPO=%s VERIF_CACHE=%s VERIF_COQ=%s" % (wt2, scache, seedcoq)
             for c in checks:
                 t0 = time.time()
                 rc, out = sh("%s ./check %s 2>&1 | tail -8" % (env, c), cwd=VERIF, timeout=3600)
